@@ -41,12 +41,15 @@ func init() {
 				}
 				return unit.Name + " " + hexShort(cur)
 			})
+			var hist byteHist
 			unit.Each(func(b []byte) bool {
 				cur = b
 				if w.Journaling() {
 					w.JournalCase(func() string { return hex.EncodeToString(b) })
 				}
+				hist.begin(w, b, unit.Name)
 				c02Check(w, st, b, unit.Name)
+				hist.end(histOK)
 				return !w.Expired()
 			})
 		},
@@ -71,17 +74,20 @@ func init() {
 				c02Check(w, newC02State(), b, "crash-replay") // dies again if the crash is real
 				return nil
 			}
-			return bytesReplay(func(w *mc.W, b []byte, unit string) {
-				if strings.HasPrefix(unit, "c02only/") {
-					// the case records only the head of a very long input: regenerate it
-					for _, x := range genUnitsC02("quick") {
-						if x.Name == unit {
-							x.Each(func(b []byte) bool { c02Check(w, newC02State(), b, unit); return true })
+			return bytesReplay(func() func(w *mc.W, b []byte, unit string) {
+				st := newC02State()
+				return func(w *mc.W, b []byte, unit string) {
+					if strings.HasPrefix(unit, "c02only/") {
+						// the case records only the head of a very long input: regenerate it
+						for _, x := range genUnitsC02("quick") {
+							if x.Name == unit {
+								x.Each(func(b []byte) bool { c02Check(w, st, b, unit); return true })
+							}
 						}
+						return
 					}
-					return
+					c02Check(w, st, b, unit)
 				}
-				c02Check(w, newC02State(), b, unit)
 			})(w, data)
 		},
 		Post: postDistinct(100),
@@ -158,6 +164,7 @@ func c02Check(w *mc.W, st *c02State, b []byte, unit string) {
 		}
 	}
 	p := st.ps.Parse(b)
+	histOK = p.MetaOK
 	calls := st.rd.Calls
 	if !p.MetaOK && !p.MIDOrder && len(calls) > 0 {
 		fail("delivered-before-metadata-valid", fmt.Sprintf("metadata invalid (%s) but %d calls delivered, first %s", p.Reason, len(calls), calls[0]))
@@ -197,6 +204,17 @@ func c02Check(w *mc.W, st *c02State, b []byte, unit string) {
 			}
 		}
 		w.Count("prefix_checks", int64(len(b)))
+	}
+
+	// (a') no destination at all (validation only): the decoder documents a nil destination; it must
+	// neither panic nor judge the input differently
+	if pnc, stack := guard(func() {
+		e0 := decode.Decode(nil, b)
+		if (e0 == nil) != (err == nil) {
+			fail("sink-dependent-result", fmt.Sprintf("Decode with a nil destination err=%v, into recorder err=%v", e0, err))
+		}
+	}); pnc != nil {
+		fail("panic:decode/nil:"+panicKey(stack), fmt.Sprintf("Decode with a nil destination panicked: %v", pnc))
 	}
 
 	// (b) real Encoder as destination
